@@ -27,7 +27,19 @@ def run(ctx, args):
     fails, r = ctx.validate("Trace_Udp", "Trace_Udp.cfg", trace, timeout=3000)
     for f in fails:
         f["trace"] = trace
-    ctx.evaluations = int(m.group(2))
+    # isolation at the level of what is relayed: the very same datagram processed again is handled as the first time
+    rtrace = os.path.join(ctx.scratch, "udp_repeat_trace.ndjson")
+    rc, out = ctx.run_driver("TestVfUdpRepeat", env={"VERIF_TRACE": rtrace, "VERIF_NROUND": 6 if q else 60, "VERIF_NREPEAT": 3 if q else 5}, timeout=1500)
+    m2 = re.search(r"VF cases=(\d+) events=(\d+)", out)
+    if not m2:
+        raise Infra("udp repeat driver printed no summary:\n" + out[-2000:])
+    ctx.traces += int(m2.group(1))
+    ctx.extra["repeated_datagram_cases"] = int(m2.group(1))
+    rf, r2 = ctx.validate("Trace_Twin", "Trace_Twin_C10.cfg", rtrace, timeout=1500)
+    for f in rf:
+        f["trace"] = rtrace
+    fails += rf
+    ctx.evaluations = int(m.group(2)) + int(m2.group(2))
     ctx.distinct = nbeh
     ctx.rule = ("datagram sequences: all %d sequences of %d datagrams over 6 classes (small / large, declared body exact / larger / much larger / smaller, cut in the headers) emitted by TLC from MC_UdpBuf "
                 "(every interleaving of Alloc/Recv/Parse/Free is model-checked), sent to a real UDPServerTransport, plus random sequences of 3-62 datagrams (20 B - 60 KiB, any cut offset) from 1-3 sockets; non-trivial = all"
